@@ -18,12 +18,16 @@ import (
 	"sync"
 
 	zed "github.com/brimdata/super"
+	"github.com/brimdata/super/compiler"
+	"github.com/brimdata/super/compiler/ast"
 	"github.com/brimdata/super/lake"
 	"github.com/brimdata/super/lake/branches"
 	"github.com/brimdata/super/lake/commits"
 	"github.com/brimdata/super/lake/journal"
 	"github.com/brimdata/super/lake/pools"
 	"github.com/brimdata/super/order"
+	"github.com/brimdata/super/runtime"
+	"github.com/brimdata/super/runtime/exec"
 	"github.com/brimdata/super/zio/zngio"
 	"github.com/brimdata/super/zio/zsonio"
 	"github.com/brimdata/super/zson"
@@ -34,7 +38,7 @@ import (
 // StoreOp is one API operation of a scenario.  Pools and commits are referred to by the
 // label of the operation that creates them; data objects by a scenario-wide name.
 type StoreOp struct {
-	Kind   string `json:"kind"`             // createPool renamePool removePool createBranch removeBranch load delete
+	Kind   string `json:"kind"`             // createPool renamePool removePool createBranch removeBranch load delete | compact revert merge deleteWhere addVectors
 	Lbl    int    `json:"lbl,omitempty"`    // label of the pool / commit this op creates
 	Pool   int    `json:"pool,omitempty"`   // label of the pool operated on
 	Name   int    `json:"name,omitempty"`   // pool name "q<n>" / branch name (0 = "main", n = "b<n>")
@@ -64,8 +68,47 @@ func (o StoreOp) Sexp() string {
 			s += fmt.Sprintf(" %d", x)
 		}
 		return s + ")"
+	case "compact":
+		s := fmt.Sprintf("(compact %d %d %d %d", o.Pool, o.Branch, o.Lbl, o.Obj)
+		for _, x := range o.Objs {
+			s += fmt.Sprintf(" %d", x)
+		}
+		return s + ")"
+	case "revert":
+		return fmt.Sprintf("(revert %d %d %d %d)", o.Pool, o.Branch, o.Lbl, o.Parent)
+	case "merge":
+		return fmt.Sprintf("(merge %d %d %d %d)", o.Pool, o.Branch, o.Name, o.Lbl)
+	case "deleteWhere":
+		return fmt.Sprintf("(deleteWhere %d %d %d %d)", o.Pool, o.Branch, o.Lbl, o.Obj)
+	case "addVectors":
+		s := fmt.Sprintf("(addVectors %d %d %d", o.Pool, o.Branch, o.Lbl)
+		for _, x := range o.Objs {
+			s += fmt.Sprintf(" %d", x)
+		}
+		return s + ")"
 	}
 	panic("bad op kind " + o.Kind)
+}
+
+// Modelled: the Lean model (StoreApi.lean) has a program for this operation.
+func (o StoreOp) Modelled() bool {
+	switch o.Kind {
+	case "revert", "merge", "deleteWhere", "addVectors":
+		return false
+	}
+	return true
+}
+
+// StoreOpsModelled reports whether every operation of the scenario is modelled.
+func StoreOpsModelled(clients [][]StoreOp) bool {
+	for _, ops := range clients {
+		for _, o := range ops {
+			if !o.Modelled() {
+				return false
+			}
+		}
+	}
+	return true
 }
 
 func (o StoreOp) String() string { return o.Sexp() }
@@ -232,8 +275,16 @@ func StoreClassifyErr(err error) string {
 		return "nosuchkey"
 	case errors.Is(err, journal.ErrConstraint), strings.Contains(s, "operated on during removal"), strings.Contains(s, "renamed during removal"):
 		return "constraint"
-	case errors.Is(err, commits.ErrNotFound):
+	case strings.Contains(s, "commit not found:"), strings.Contains(s, "pool not found"), strings.Contains(s, "branch not found"):
+		return "notfound"
+	case strings.Contains(s, "revert commit is empty"), errors.Is(err, commits.ErrEmptyTransaction):
+		return "empty"
+	case strings.Contains(s, "vector exists"):
+		return "exists"
+	case errors.Is(err, commits.ErrNotFound), errors.Is(err, commits.ErrWriteConflict), strings.Contains(s, "non-existent object"):
 		return "builderr"
+	case strings.Contains(s, "common ancestor"), strings.Contains(s, "error merging"):
+		return "conflict"
 	case strings.Contains(s, "no such journal"), errors.Is(err, fs.ErrNotExist):
 		return "io"
 	}
@@ -273,13 +324,36 @@ func (r *StoreRun) exec(c int, op StoreOp, pool ksuid.KSUID, parent ksuid.KSUID,
 		var b *lake.Branch
 		if b, err = lookupBranch(); err == nil {
 			zctx := zed.NewContext()
-			rd := zsonio.NewReader(zctx, strings.NewReader(fmt.Sprintf("{k:%d}", op.Obj)))
+			rd := zsonio.NewReader(zctx, strings.NewReader(fmt.Sprintf("{k:%d}{k:%d}", op.Obj, 100000+op.Obj)))
 			commit, err = b.Load(ctx, zctx, rd, "verif", "load", "")
 		}
 	case "delete":
 		var b *lake.Branch
 		if b, err = lookupBranch(); err == nil {
 			commit, err = b.Delete(ctx, objs, "verif", "delete")
+		}
+	case "compact": // lake/api/local.go Compact
+		var p *lake.Pool
+		if p, err = root.OpenPool(ctx, pool); err == nil {
+			commit, err = exec.Compact(ctx, root, p, StoreBranchName(op.Branch), objs, false, "verif", "compact", "")
+		}
+	case "revert":
+		commit, err = root.Revert(ctx, pool, StoreBranchName(op.Branch), parent, "verif", "revert")
+	case "merge": // child op.Branch into parent op.Name
+		commit, err = root.MergeBranch(ctx, pool, StoreBranchName(op.Branch), StoreBranchName(op.Name), "verif", "merge")
+	case "deleteWhere": // lake/api/local.go DeleteWhere
+		comp := compiler.NewLakeCompiler(root)
+		var prog ast.Seq
+		if prog, _, err = comp.Parse(fmt.Sprintf("k==%d", op.Obj)); err == nil {
+			var b *lake.Branch
+			if b, err = lookupBranch(); err == nil {
+				commit, err = b.DeleteWhere(ctx, comp, prog, "verif", "delete where", "")
+			}
+		}
+	case "addVectors":
+		var b *lake.Branch
+		if b, err = lookupBranch(); err == nil {
+			commit, err = b.AddVectors(ctx, objs, "verif", "vectors")
 		}
 	default:
 		err = fmt.Errorf("bad op %s", op.Kind)
@@ -296,7 +370,7 @@ func (r *StoreRun) scanObjects() {
 		parts := strings.Split(ev.Path, "/")
 		if len(parts) == 3 && parts[1] == "data" && strings.HasSuffix(parts[2], ".zng") && !strings.HasSuffix(parts[2], "-seek.zng") && (ev.Op == "put" || ev.Op == "create") {
 			id := strings.TrimSuffix(parts[2], ".zng")
-			if ev.Client < len(r.cur) && r.cur[ev.Client] != nil && r.cur[ev.Client].Op.Kind == "load" {
+			if ev.Client < len(r.cur) && r.cur[ev.Client] != nil && (r.cur[ev.Client].Op.Kind == "load" || r.cur[ev.Client].Op.Kind == "compact") {
 				if _, ok := r.ObjName[id]; !ok {
 					r.ObjName[id] = r.cur[ev.Client].Op.Obj
 					if k, err := ksuid.Parse(id); err == nil {
@@ -330,7 +404,7 @@ func (r *StoreRun) finish(c int, out *opOutcome) {
 		switch rec.Op.Kind {
 		case "createPool":
 			r.Pools[rec.Op.Lbl] = out.created
-		case "load", "delete":
+		case "load", "delete", "compact", "revert", "merge", "deleteWhere", "addVectors":
 			r.Commits[rec.Op.Lbl] = out.commit
 			rec.Commit = out.commit.String()
 		}
@@ -354,7 +428,7 @@ func (r *StoreRun) begin(c int, coop bool) (*opOutcome, bool) {
 	if op.Kind != "createPool" {
 		pool, ok = r.Pools[op.Pool]
 	}
-	if ok && op.Kind == "createBranch" && op.Parent != 0 {
+	if ok && (op.Kind == "createBranch" || op.Kind == "revert") && op.Parent != 0 {
 		parent, ok = r.Commits[op.Parent]
 	}
 	if !ok {
@@ -606,15 +680,23 @@ func decodeCommitObject(b []byte) (parent string, adds, dels []string, err error
 }
 
 func (r *StoreRun) objNames(ids []string) string {
+	var known []int
 	var out []string
 	for _, id := range ids {
 		if n, ok := r.ObjName[id]; ok {
-			out = append(out, fmt.Sprintf("o%d", n))
+			known = append(known, n)
 		} else {
 			out = append(out, "o?"+id)
 		}
 	}
-	return strings.Join(out, ",")
+	// the order of the actions inside a commit object follows map iteration: compare as sets
+	sort.Ints(known)
+	sort.Strings(out)
+	var res []string
+	for _, n := range known {
+		res = append(res, fmt.Sprintf("o%d", n))
+	}
+	return strings.Join(append(res, out...), ",")
 }
 
 func decodeJournalSnap(b []byte, poolsJournal bool) string {
@@ -1247,4 +1329,73 @@ func (r *StoreRun) RunOne(c int) *OpRecord {
 	rec := r.cur[c]
 	r.finish(c, out)
 	return rec
+}
+
+
+// ContentView is the user-level content of the lake seen by a cold handle: for every pool and
+// branch the sorted values of `k` (independent of object ids, so it can be compared across runs).
+func (r *StoreRun) ContentView() (out []string, err error) {
+	e := r.E
+	n := e.TraceLen()
+	defer func() {
+		e.mu.Lock()
+		e.Trace = e.Trace[:n]
+		e.mu.Unlock()
+	}()
+	e.ResetOps(storeObserver)
+	e.SetReadOnly(storeObserver, true)
+	perr, _ := Protect(func() error {
+		root, err := StoreOpenLake(e, storeObserver)
+		if err != nil {
+			return err
+		}
+		ctx := context.Background()
+		list, err := root.ListPools(ctx)
+		if err != nil {
+			return err
+		}
+		sort.Slice(list, func(i, j int) bool { return list[i].Name < list[j].Name })
+		for _, pc := range list {
+			pool, err := root.OpenPool(ctx, pc.ID)
+			if err != nil {
+				return fmt.Errorf("pool %s: %w", pc.Name, err)
+			}
+			bl, err := pool.ListBranches(ctx)
+			if err != nil {
+				return fmt.Errorf("pool %s: %w", pc.Name, err)
+			}
+			sort.Slice(bl, func(i, j int) bool { return bl[i].Name < bl[j].Name })
+			for _, bc := range bl {
+				prog, _, err := compiler.Parse(fmt.Sprintf("from %s@%s | sort k | yield k", pc.Name, bc.Name))
+				if err != nil {
+					return err
+				}
+				rctx := runtime.NewContext(ctx, zed.NewContext())
+				q, err := compiler.NewLakeCompiler(root).NewLakeQuery(rctx, prog, 1, nil)
+				if err != nil {
+					rctx.Cancel()
+					return fmt.Errorf("%s@%s: %w", pc.Name, bc.Name, err)
+				}
+				vals, err := PullAll(q)
+				q.Pull(true)
+				rctx.Cancel()
+				if err != nil {
+					return fmt.Errorf("%s@%s: %w", pc.Name, bc.Name, err)
+				}
+				snap, err := pool.Snapshot(ctx, bc.Commit)
+				if err != nil {
+					return fmt.Errorf("%s@%s: %w", pc.Name, bc.Name, err)
+				}
+				nv := 0
+				for _, o := range snap.SelectAll() {
+					if snap.HasVector(o.ID) {
+						nv++
+					}
+				}
+				out = append(out, fmt.Sprintf("%s@%s: %s vectors=%d", pc.Name, bc.Name, strings.Join(vals, ","), nv))
+			}
+		}
+		return nil
+	})
+	return out, perr
 }
